@@ -80,7 +80,16 @@ class C05(SessionProp):
         sr = ber.tlv(0, True, 16, ber.tlv(0, False, 2, b"\x01") + ber.tlv(1, True, 3,
               ber.tlv(0, False, 4, b"") + bytes.fromhex("0a01000a0100020100020100010100") + deep + ber.tlv(0, True, 16, b"")))
         notice_bad_utf8 = bytes.fromhex("302a02010078250a01340400040662796520fffe8a16312e332e362e312e342e312e313436362e3230303336")
-        return [
+        # MS-ADTS: responseName [10] at the envelope level, after the protocolOp
+        ext = ber.tlv(1, True, 24, ber.tlv(0, False, 10, b"\x00") + ber.tlv(0, False, 4, b"") + ber.tlv(0, False, 4, b""))
+        ad1 = ber.tlv(0, True, 16, ber.tlv(0, False, 2, b"\x01") + ext + ber.tlv(2, False, 10, b"1.2.840.113556.1.4.1781"))
+        ad2 = ber.tlv(0, True, 16, ber.tlv(0, False, 2, b"\x00") + ext + ber.tlv(2, False, 10, msgs.OID_NOTICE))
+        ad3 = ber.tlv(0, True, 16, ber.tlv(0, False, 2, b"\x01") + ext + ber.tlv(2, False, 10, b"") + ber.tlv(2, False, 10, b"\xff"))
+        adcases = [
+            {"role": 0, "pre": [[C_EXT, b"1.2", [], []]], "chunks": [d], "calls": [[C_EXT, b"1.2", [], []], [RECV, d], [RECV, b"\x30"]], "meta": None, "mut": 1}
+            for d in (ad1, ad2, ad3)
+        ]
+        return adcases + [
             {"role": 0, "pre": [], "chunks": [bytes.fromhex("30020200")], "calls": [[RECV, bytes.fromhex("30020200")]], "meta": None, "mut": 1},
             {"role": 1, "pre": [], "chunks": [sr], "calls": [[RECV, sr], [RECV, b"\x30"]], "meta": None, "mut": 1},
             {"role": 1, "pre": [], "chunks": [notice_bad_utf8], "calls": [[RECV, notice_bad_utf8], [RECV, b"\x30"]], "meta": None, "mut": 1},
